@@ -187,7 +187,7 @@ func (g *gen) genStatement(typ types.Type, this, that string) error {
 		p.P("return " + fieldStr)
 		return nil
 	case *types.Pointer:
-		thisref, thatref := "*"+this, "*"+that
+		thisref, thatref := "(*"+this+")", "(*"+that+")"
 		reftyp := ttyp.Elem()
 		named, isNamed := reftyp.(*types.Named)
 		strct, isStruct := reftyp.Underlying().(*types.Struct)
